@@ -317,7 +317,7 @@ type srInfo struct {
 	toMeter float64
 	fg      float64
 	dtype   int
-	wgsCode bool
+	wgsCode bool // strings.EqualFold(DatumCode, "WGS84"): what checkNotWGS reads (fix b165df1)
 }
 
 func axisFlip(axis string, p *[2]float64) bool {
@@ -469,7 +469,7 @@ func implHist(p *vproto.Parser) string {
 	dumpI := make([]string, len(all))
 	fmt.Fprintf(&b, "wgs %d", wgs)
 	for i, sr := range all {
-		info[i] = srInfo{sr.Name == "longlat", sr.Axis, sr.ToMeter, sr.FromGreenwich, datumType(sr), sr.DatumCode == "WGS84"}
+		info[i] = srInfo{sr.Name == "longlat", sr.Axis, sr.ToMeter, sr.FromGreenwich, datumType(sr), strings.EqualFold(sr.DatumCode, "WGS84")}
 		dumpF[i] = dumpSR(sr)
 		c := *sr
 		vproto.Safe(func() { c.Transformers() })
